@@ -165,6 +165,32 @@ __CPROVER_ensures(IMPLIES(__CPROVER_return_value < t->entries,
 __CPROVER_ensures(IMPLIES(start <= g_j && g_j < __CPROVER_return_value, RB_PART_OF32(a, t->entry[g_j].address)))
 ;
 
+/* links a register to the FIRST area (in list order) whose bit-precise
+ * address test accepts the register's address, provided the register also
+ * fits into it; otherwise leaves the register alone.  (With disjoint areas
+ * "first" is "the"; that is C04's layer-3 business.) */
+static bool reg_entry_is_in_memory(RegisterTable *t, RegisterEntry *e)
+__CPROVER_requires(__CPROVER_r_ok(t, sizeof(RegisterTable)))
+__CPROVER_requires(__CPROVER_r_ok(t->area, (size_t)t->areas * sizeof(RegisterArea)))
+__CPROVER_requires(__CPROVER_rw_ok(e, sizeof(RegisterEntry)) && RB_TYPE_IS_ENUM(e->type))
+__CPROVER_requires(!RB_SAME_OBJECT(e, t) && !RB_SAME_OBJECT(e, t->area))
+__CPROVER_assigns(e->area, e->offset)
+__CPROVER_ensures(IMPLIES(__CPROVER_return_value,
+    RB_SAME_OBJECT(e->area, t->area) && (size_t)(e->area - t->area) < t->areas
+    && e->area == &t->area[(size_t)(e->area - t->area)]
+    && RB_PART_OF32(e->area, e->address) && RB_FITS32(e->area, e)
+    && e->offset == e->address - e->area->base))
+__CPROVER_ensures(IMPLIES(__CPROVER_return_value && g_j < (size_t)(e->area - t->area),
+    !RB_PART_OF32(&t->area[g_j], e->address)))
+__CPROVER_ensures(IMPLIES(!__CPROVER_return_value,
+    e->area == __CPROVER_old(e->area) && e->offset == __CPROVER_old(e->offset)))
+/* refused: no area claims the address (ghost area g_j), or the first claimant is too small;
+ * in particular the first area of the list is never passed over */
+__CPROVER_ensures(IMPLIES(!__CPROVER_return_value && t->areas > 0,
+    !(RB_PART_OF32(&t->area[0], e->address) && RB_FITS32(&t->area[0], e))))
+__CPROVER_ensures(e->type == __CPROVER_old(e->type) && e->address == __CPROVER_old(e->address))
+;
+
 /* ---- ghost record: expected outcomes computed by the spec functions ---- */
 struct rb_ghost {
   uint32_t na, ne;                  /* positions of the list terminators of the description */
